@@ -916,11 +916,12 @@ impl EdnsData {
     }
 
     pub fn get_extended_dns_error(&self) -> Option<(EdeCode, String)> {
-        self.get_opt(&EDNS_EDE).map(|opt| {
-            (
-                EdeCode(u16::from_be_bytes([opt.data[0], opt.data[1]])),
+        /* An option too short to hold the info-code is malformed: treat it as absent. */
+        self.get_opt(&EDNS_EDE).and_then(|opt| {
+            Some((
+                EdeCode(u16::from_be_bytes([*opt.data.first()?, *opt.data.get(1)?])),
                 String::from_utf8_lossy(&opt.data[2..]).into_owned(),
-            )
+            ))
         })
     }
 
